@@ -23,3 +23,4 @@ def run(ctx):
     immut.im8(ctx)
     immut.im9(ctx)
     immut.im10(ctx)
+    immut.im11(ctx)
